@@ -183,7 +183,7 @@ def _check_main(ctx, rep: Report):
         rep.oblige("C07.T", r["entry"], not sites, f"FrozenInstanceError raised at {sites}" if sites else "")
         for x in r["raises"]:
             fn, stmt = ctx.p.stmt_at(x["site"])
-            rep.violate(Violation("C07.T", f"C07.T|{hid}|{fn}|via:{x['via']}",
+            rep.violate(Violation("C07.T", f"C07.T|{hid}|via:{x['via']}",
                                   f"{hid} (copy-on-write) raises FrozenInstanceError on a frozen class: its private copy is mutated through the guarded route `{stmt}` ({fn})",
                                   x["site"], fn, x["path"], r["entry"]))
 
